@@ -187,10 +187,18 @@ func Generate(r *rand.Rand, hosts []string, o Opts) *Generated {
 					e = URL(g.Actors[r.Intn(len(g.Actors))])
 				case 5: // the parent id differs only in its query
 					reply.Parent = RawEdge(p.ID + "?utm=1")
-				case 6: // a foreign-host author makes the reply invalid
+				case 6: // a foreign-host author makes the reply invalid, also behind a co-author that does not load
 					for _, a := range g.Actors {
 						if a.Host != reply.Host {
 							reply.Creators = []*Edge{URL(a)}
+							if r.Intn(2) == 0 {
+								lost := g.NewActor(reply.Host)
+								lost.Gone = []string{"404", "500", "garbage"}[r.Intn(3)]
+								reply.Creators = []*Edge{URL(lost), URL(a)}
+								if r.Intn(2) == 0 {
+									reply.Creators = append(reply.Creators, URL(lost))
+								}
+							}
 							break
 						}
 					}
@@ -267,6 +275,28 @@ func Generate(r *rand.Rand, hosts []string, o Opts) *Generated {
 					anon.Replies, anon.Parent = nil, nil
 					claimed := g.Actors[r.Intn(len(g.Actors))]
 					anon.Creators = []*Edge{URL(claimed)}
+					if r.Intn(2) == 0 {
+						// no author claim: the id-less note is a valid item, but it cannot own a comment section
+						anon.Creators = nil
+						rc := g.NewColl(a.Host, "replies", true)
+						var entries []*Edge
+						for k, m := 0, 1+r.Intn(3); k < m; k++ {
+							orphan := newPost(hosts[r.Intn(nh)])
+							switch r.Intn(3) {
+							case 0:
+								orphan.Parent = nil
+							case 1:
+								ghost := newPost(a.Host)
+								ghost.Gone = "404"
+								orphan.Parent = URL(ghost)
+							default:
+								orphan.Parent = &Edge{To: anon, Mode: "anon"} // "replies to" an embedded copy that has no id either
+							}
+							entries = append(entries, URL(orphan))
+						}
+						rc.AddPage(entries)
+						anon.Replies = rc
+					}
 					act.ActKind = "Create"
 					act.Object = &Edge{To: anon, Mode: "anon"}
 				case 8: // a post with an id whose author is embedded without one
